@@ -87,7 +87,8 @@ def _pairs(tier):
     ]
     if tier == "quick":
         return [(a, b, 2) for a, b in quick]
-    out = [(a, b, 3) for a, b in quick]
+    deep = {0, 3, 6, 7, 10, 11}
+    out = [(a, b, 3 if pos in deep else 2) for pos, (a, b) in enumerate(quick)]
     seen = set(quick)
     more = []
     for off in (NE, SW):
@@ -640,7 +641,11 @@ def _explore(case, inv, res, only_hist):
             failed = apply_op(sched, oper)
             if failed is not None:
                 if pos != len(hist) - 1 and only_hist is None:
-                    raise RuntimeError(f"history {hist_text(hist)} not replayable")
+                    raise RuntimeError(
+                        f"history {hist_text(hist)} of {case['key']} is not "
+                        f"replayable: {oper} was accepted before and is now "
+                        f"'{failed}' (non-determinism, or the repository "
+                        f"changed during the run)")
                 break
         if hist:
             res["transitions"] += 1
